@@ -404,4 +404,89 @@ theorem rateFee_exact {r g : Dec} {gross n : Nat} (hrs : r.scale ≤ 28)
     · simp only [hn] at hu ⊢
       simpa using hu
 
+/-! ### order and equality by value, on unsigned decimals -/
+
+theorem num_nonneg {a b : Dec} (h : a.neg = false) : num a b = ((a.mant * 10 ^ b.scale : Nat) : Int) := by
+  simp [num, h]
+
+theorem eqv_nat {a b : Dec} (ha : a.neg = false) (hb : b.neg = false) :
+    eqv a b = true ↔ a.mant * 10 ^ b.scale = b.mant * 10 ^ a.scale := by
+  unfold eqv
+  rw [num_nonneg ha, num_nonneg hb]
+  simp only [beq_iff_eq]
+  exact Int.ofNat_inj
+
+theorem lt_nat {a b : Dec} (ha : a.neg = false) (hb : b.neg = false) :
+    lt a b = true ↔ a.mant * 10 ^ b.scale < b.mant * 10 ^ a.scale := by
+  unfold lt
+  rw [num_nonneg ha, num_nonneg hb]
+  simp only [decide_eq_true_eq]
+  exact Int.ofNat_lt
+
+theorem eqv_trans {e a b : Dec} (he : e.neg = false) (ha : a.neg = false) (hb : b.neg = false)
+    (h1 : eqv e a = true) (h2 : eqv a b = true) : eqv e b = true := by
+  rw [eqv_nat he ha] at h1
+  rw [eqv_nat ha hb] at h2
+  rw [eqv_nat he hb]
+  have : e.mant * 10 ^ b.scale * 10 ^ a.scale = b.mant * 10 ^ e.scale * 10 ^ a.scale := by
+    calc e.mant * 10 ^ b.scale * 10 ^ a.scale
+        = (e.mant * 10 ^ a.scale) * 10 ^ b.scale := by ac_rfl
+      _ = (a.mant * 10 ^ e.scale) * 10 ^ b.scale := by rw [h1]
+      _ = (a.mant * 10 ^ b.scale) * 10 ^ e.scale := by ac_rfl
+      _ = (b.mant * 10 ^ a.scale) * 10 ^ e.scale := by rw [h2]
+      _ = b.mant * 10 ^ e.scale * 10 ^ a.scale := by ac_rfl
+  exact Nat.eq_of_mul_eq_mul_right (pow10_pos _) this
+
+theorem lt_of_eqv_lt {e a b : Dec} (he : e.neg = false) (ha : a.neg = false) (hb : b.neg = false)
+    (h1 : eqv e a = true) (h2 : lt a b = true) : lt e b = true := by
+  rw [eqv_nat he ha] at h1
+  rw [lt_nat ha hb] at h2
+  rw [lt_nat he hb]
+  have : e.mant * 10 ^ b.scale * 10 ^ a.scale < b.mant * 10 ^ e.scale * 10 ^ a.scale := by
+    calc e.mant * 10 ^ b.scale * 10 ^ a.scale
+        = (e.mant * 10 ^ a.scale) * 10 ^ b.scale := by ac_rfl
+      _ = (a.mant * 10 ^ e.scale) * 10 ^ b.scale := by rw [h1]
+      _ = (a.mant * 10 ^ b.scale) * 10 ^ e.scale := by ac_rfl
+      _ < (b.mant * 10 ^ a.scale) * 10 ^ e.scale := Nat.mul_lt_mul_of_pos_right h2 (pow10_pos _)
+      _ = b.mant * 10 ^ e.scale * 10 ^ a.scale := by ac_rfl
+  exact Nat.lt_of_mul_lt_mul_right this
+
+/-- equal prices give equal whole products -/
+theorem product_eqv {p q : Dec} {n : Nat} (hp : p.neg = false) (hq : q.neg = false)
+    (he : eqv p q = true) (hw : wholeProduct p n = true) :
+    wholeProduct q n = true ∧ product q n = product p n := by
+  rw [eqv_nat hp hq] at he
+  unfold wholeProduct at hw
+  simp only [beq_iff_eq] at hw
+  obtain ⟨P, hP⟩ := Nat.dvd_of_mod_eq_zero hw
+  have hq' : q.mant * n = P * 10 ^ q.scale := by
+    have : q.mant * n * 10 ^ p.scale = P * 10 ^ q.scale * 10 ^ p.scale := by
+      calc q.mant * n * 10 ^ p.scale = (q.mant * 10 ^ p.scale) * n := by ac_rfl
+        _ = (p.mant * 10 ^ q.scale) * n := by rw [he]
+        _ = (p.mant * n) * 10 ^ q.scale := by ac_rfl
+        _ = (10 ^ p.scale * P) * 10 ^ q.scale := by rw [hP]
+        _ = P * 10 ^ q.scale * 10 ^ p.scale := by ac_rfl
+    exact Nat.eq_of_mul_eq_mul_right (pow10_pos _) this
+  unfold wholeProduct product
+  rw [hq', hP]
+  simp [Nat.mul_mod_left, Nat.mul_div_cancel _ (pow10_pos _), Nat.mul_div_cancel_left _ (pow10_pos _)]
+
+/-! ### the pro-rata fee at the two ends -/
+
+/-- nothing left unspent needs no fee -/
+theorem feeFor_zero_val {F Q n : Nat} (h : feeFor F Q 0 = .ok n) : n = 0 := by
+  unfold feeFor at h
+  simp only [Res.bind_eq_ok, orErr_eq_ok] at h
+  obtain ⟨r, hr, f, hf, p, hp, hu⟩ := h
+  unfold ratio at hr
+  split at hr
+  · cases hr
+  · simp only [if_true, Option.some.injEq] at hr
+    subst hr
+    unfold mul at hp
+    simp only [true_or, if_true, Option.some.injEq] at hp
+    subst hp
+    simp [toU128, rha0] at hu
+    omega
+
 end Ats.Dec
